@@ -165,6 +165,10 @@ def pressure_function(kind):
 
 BASE = dict(
     family="G", geom="lsn", sigma=1.0, mirror=False, nR=65, nZ=83, zmax=0.9,
+    # affine map of the whole equilibrium and wall: R' = a*R + b, Z' = c*Z + d  ([a, b, c, d]).
+    # The base family has R in [1,2] (span exactly 1), Z symmetric about 0 and max(Z) < max(R):
+    # the "affine" members break all three coincidences
+    affine=[1.0, 0.0, 1.0, 0.0],
     fpol="linear", pressure="smooth", profile_ext=False, nprof=65,
     wall="W0", via="api", options={}, nonorth={}, post=[], kind="grid",
 )
@@ -187,12 +191,20 @@ def build_inputs(config):
     c = normalise(config)
     if c["family"] != "G":
         raise ValueError("build_inputs handles family G")
-    f = psi_analytic(c["geom"], c["sigma"], c["mirror"])
-    R1D = np.linspace(1.0, 2.0, c["nR"])
-    Z1D = np.linspace(-c["zmax"], c["zmax"], c["nZ"])
+    f0 = psi_analytic(c["geom"], c["sigma"], c["mirror"])
+    a_, b_, c_, d_ = c["affine"]
+    if [a_, b_, c_, d_] == [1.0, 0.0, 1.0, 0.0]:
+        f = f0
+    else:
+        def f(R, Z, f0=f0):
+            return f0((np.asarray(R, dtype=float) - b_) / a_, (np.asarray(Z, dtype=float) - d_) / c_)
+    R1D = a_ * np.linspace(1.0, 2.0, c["nR"]) + b_
+    Z1D = c_ * np.linspace(-c["zmax"], c["zmax"], c["nZ"]) + d_
     R2D, Z2D = np.meshgrid(R1D, Z1D, indexing="ij")
     psi2D = f(R2D, Z2D)
-    o, xs = axis_and_separatrices(f, c["zmax"] - 0.01)
+    o, xs = axis_and_separatrices(f0, c["zmax"] - 0.01)
+    o = dict(o, R=a_ * o["R"] + b_, Z=c_ * o["Z"] + d_)
+    xs = [dict(x, R=a_ * x["R"] + b_, Z=c_ * x["Z"] + d_) for x in xs]
     psi_ax, psi_sep = o["psi"], xs[0]["psi"]
     smax = 1.3 if c["profile_ext"] else 1.0
     s = np.linspace(0.0, smax, c["nprof"])
@@ -204,7 +216,9 @@ def build_inputs(config):
     return dict(
         R1D=R1D, Z1D=Z1D, psi2D=psi2D, psi1D=psi1D, fpol1D=np.asarray(fpol1D, dtype=float),
         pressure=None if pres is None else np.asarray(pres, dtype=float),
-        wall=wall_points(c["wall"], c["mirror"]), analytic=f, o_point=o, x_points=xs,
+        wall=None if wall_points(c["wall"], c["mirror"]) is None else
+        [(a_ * r + b_, c_ * z + d_) for r, z in wall_points(c["wall"], c["mirror"])],
+        analytic=f, o_point=o, x_points=xs,
         snorm=s,
     )
 
